@@ -440,6 +440,7 @@ type RevClient struct {
 	Who      func(ctx context.Context, tok int) (string, error)
 	WhoAlias func(ctx context.Context, tok int) (string, error)
 	WhoTag   func(ctx context.Context, tok int) (string, error) `rpc_method:"R.Who"`
+	WhoRetry func(ctx context.Context, tok int) (string, error) `rpc_method:"R.Who" retry:"true"`
 	SubR     func(ctx context.Context, tok int) (<-chan int, error)
 }
 
@@ -538,17 +539,28 @@ func (a *API) Rev(ctx context.Context, tok int) (string, error) {
 	if !ok {
 		return "norev", nil
 	}
+	// a handler may keep the reverse client and call it with a context of its
+	// own: then only the library's own bookkeeping can end a call to a client
+	// that is gone
+	rctx := ctx
+	t.mu.Lock()
+	if t.IgnoreCtx {
+		rctx = context.Background()
+	}
+	t.mu.Unlock()
 	var parts []string
 	for i := 0; i < 1+t.N; i++ {
 		var s string
 		var err error
-		switch i % 3 {
+		switch (i + tok) % 4 {
 		case 0:
-			s, err = rc.Who(ctx, tok)
+			s, err = rc.Who(rctx, tok)
 		case 1:
-			s, err = rc.WhoAlias(ctx, tok)
+			s, err = rc.WhoAlias(rctx, tok)
+		case 2:
+			s, err = rc.WhoRetry(rctx, tok)
 		default:
-			s, err = rc.WhoTag(ctx, tok)
+			s, err = rc.WhoTag(rctx, tok)
 		}
 		if err != nil {
 			return "", fmt.Errorf("reverr: %w", err)
